@@ -6,6 +6,10 @@
 #include "momo/Array.h"
 #include "momo/SegmentedArray.h"
 #include "momo/stdish/vector.h"
+#include <unistd.h>
+#include <sys/wait.h>
+#include <csignal>
+#include <fcntl.h>
 
 typedef long long ll;
 static size_t gAllocs = 0;        // Allocate + Reallocate calls seen by the memory manager
@@ -49,14 +53,14 @@ template<class T> struct PoisonAlloc
 };
 
 // ---------------------------------------------------------------- element kinds
-struct Pod { ll v; };                                    // trivially relocatable
-static Pod mkE(ll v, Pod*) { return Pod{v}; }
+struct Pod { ll v; Pod(ll x = 0) noexcept : v(x) {} };   // trivially copyable => trivially relocatable
+static Pod mkE(ll v, Pod*) { return Pod(v); }
 static ll valE(const Pod& e) { return e.v; }
 
 struct Ntm                                              // heap-owning, nothrow move, self-move safe
 {
 	ll* p;
-	explicit Ntm(ll v) : p(new ll(v)) {}
+	explicit Ntm(ll v = 0) : p(new ll(v)) {}
 	Ntm(const Ntm& o) : p(o.p ? new ll(*o.p) : nullptr) {}
 	Ntm(Ntm&& o) noexcept : p(o.p) { o.p = nullptr; }
 	Ntm& operator=(const Ntm& o) { if (this != &o) { ll* q = o.p ? new ll(*o.p) : nullptr; delete p; p = q; } return *this; }
@@ -69,7 +73,7 @@ static ll valE(const Ntm& e) { return e.p ? *e.p : -1; }
 struct Cpy                                              // copy-only (copying may throw): "moves" are copies
 {
 	ll* p;
-	explicit Cpy(ll v) : p(new ll(v)) {}
+	explicit Cpy(ll v = 0) : p(new ll(v)) {}
 	Cpy(const Cpy& o) : p(new ll(*o.p)) {}
 	Cpy& operator=(const Cpy& o) { ll* q = new ll(*o.p); delete p; p = q; return *this; }
 	~Cpy() { delete p; }
@@ -80,7 +84,7 @@ static ll valE(const Cpy& e) { return *e.p; }
 struct Smh                                              // self-move-hostile: x = std::move(x) empties x (like libstdc++ std::string)
 {
 	ll* p;
-	explicit Smh(ll v) : p(new ll(v)) {}
+	explicit Smh(ll v = 0) : p(new ll(v)) {}
 	Smh(const Smh& o) : p(o.p ? new ll(*o.p) : nullptr) {}
 	Smh(Smh&& o) noexcept : p(o.p) { o.p = nullptr; }
 	Smh& operator=(const Smh& o) { if (this != &o) { ll* q = o.p ? new ll(*o.p) : nullptr; delete p; p = q; } return *this; }
@@ -144,6 +148,19 @@ template<class C> struct MomoOps      // momo::Array / ArrayIntCap / SegmentedAr
 	static void insertInput(C& c, size_t j, const std::vector<Elem>& v) { c.Insert(j, InIt{v.data()}, InIt{v.data() + v.size()}); }
 	static void removeBack(C& c, size_t n) { c.RemoveBack(n); }
 	static void clear(C& c, bool shrink) { c.Clear(shrink); }
+	template<class A> static void emplaceBack(C& c, A&& a) { c.AddBackVar(std::forward<A>(a)); }
+	template<class A> static void emplaceAt(C& c, size_t j, A&& a) { c.InsertVar(j, std::forward<A>(a)); }
+	static void insertList(C& c, size_t j, const std::vector<Elem>& v)
+	{
+		switch (v.size()) {
+		case 0: c.Insert(j, std::initializer_list<Elem>{}); break;
+		case 1: c.Insert(j, {v[0]}); break;
+		case 2: c.Insert(j, {v[0], v[1]}); break;
+		default: c.Insert(j, {v[0], v[1], v[2]}); break; }
+	}
+	static void setCount0(C& c, size_t n) { c.SetCount(n); }
+	static void remove1(C& c, size_t j) { c.Remove(j); }
+	static void swap(C& a, C& b) { a.Swap(b); }
 };
 template<class C> struct StdOps       // momo::stdish::vector / vector_intcap
 {
@@ -164,6 +181,19 @@ template<class C> struct StdOps       // momo::stdish::vector / vector_intcap
 	static void insertInput(C& c, size_t j, const std::vector<Elem>& v) { c.insert(c.cbegin() + j, InIt{v.data()}, InIt{v.data() + v.size()}); }
 	static void removeBack(C& c, size_t n) { for (size_t i = 0; i < n; ++i) c.pop_back(); }
 	static void clear(C& c, bool) { c.clear(); }
+	template<class A> static void emplaceBack(C& c, A&& a) { c.emplace_back(std::forward<A>(a)); }
+	template<class A> static void emplaceAt(C& c, size_t j, A&& a) { c.emplace(c.cbegin() + j, std::forward<A>(a)); }
+	static void insertList(C& c, size_t j, const std::vector<Elem>& v)
+	{
+		switch (v.size()) {
+		case 0: c.insert(c.cbegin() + j, std::initializer_list<Elem>{}); break;
+		case 1: c.insert(c.cbegin() + j, {v[0]}); break;
+		case 2: c.insert(c.cbegin() + j, {v[0], v[1]}); break;
+		default: c.insert(c.cbegin() + j, {v[0], v[1], v[2]}); break; }
+	}
+	static void setCount0(C& c, size_t n) { c.resize(n); }
+	static void remove1(C& c, size_t j) { c.erase(c.cbegin() + j); }
+	static void swap(C& a, C& b) { a.swap(b); }
 };
 
 static std::vector<std::string> split(const std::string& s, char sep)
@@ -173,112 +203,211 @@ static std::vector<std::string> split(const std::string& s, char sep)
 	r.push_back(cur); return r;
 }
 
+// emplace argument: a plain integer for the custom kinds, a C string for std::string
+template<class F> static void withEmplaceArg(ll v, F f)
+{
+	if constexpr (std::is_same<Elem, Str>::value) { Str s0 = mk(v); f(s0.c_str()); } else f(v);
+}
+
+template<class C, class Ops> struct Runner
+{
+	C c;
+	std::vector<ll> twin;           // -1 = moved-from (value unspecified)
+	long bad = -1;
+
+	std::string seq() const
+	{
+		std::string out = "[";
+		size_t cntNow = Ops::count(c);
+		for (size_t i = 0; i < cntNow; ++i)
+		{
+			ll v = valE(c[i]);
+			if (i) out += ',';
+			out += (v < 0) ? std::string("M") : std::to_string(v);
+		}
+		return out + "]";
+	}
+
+	// one script op: first the twin (on values; skipped for calls that must be rejected), then the real container
+	void apply(const std::string& tok, size_t k, bool doTwin)
+	{
+		std::vector<std::string> w = split(tok, ':');
+		const std::string& o = w[0];
+		auto argIsRef = [&] (size_t pos) { return w[pos] == "r"; };
+		auto argNum = [&] (size_t pos) { return size_t(std::stoull(w[pos + 1])); };
+		auto tv = [&] (size_t i) { return (doTwin && i < twin.size()) ? twin[i] : ll(0); };
+		auto values = [&] (size_t pos, std::vector<Elem>& vs, std::vector<ll>& tvs)
+		{
+			if (w.size() > pos && !w[pos].empty())
+				for (const std::string& x : split(w[pos], ',')) { tvs.push_back(std::stoll(x)); vs.push_back(mk(tvs.back())); }
+		};
+		if (o == "ab" || o == "abm" || o == "emb")
+		{
+			bool ref = argIsRef(1); size_t i = ref ? argNum(1) : 0; ll v = ref ? tv(i) : ll(argNum(1));
+			if (doTwin) { if (o == "abm" && ref) twin[i] = -1; twin.push_back(v); }
+			if (o == "ab") { if (ref) Ops::addBack(c, static_cast<const Elem&>(c[i])); else { Elem e = mk(v); Ops::addBack(c, e); } }
+			else if (o == "abm") { if (ref) Ops::addBackR(c, std::move(c[i])); else Ops::addBackR(c, mk(v)); }
+			else { if (ref) Ops::emplaceBack(c, static_cast<const Elem&>(c[i])); else withEmplaceArg(v, [&] (auto a) { Ops::emplaceBack(c, a); }); }
+		}
+		else if (o == "ins")
+		{
+			size_t j = std::stoull(w[1]), n = std::stoull(w[2]); bool ref = argIsRef(3); size_t i = ref ? argNum(3) : 0;
+			ll v = ref ? tv(i) : ll(argNum(3));
+			if (doTwin) twin.insert(twin.begin() + j, n, v);
+			if (ref) Ops::insertN(c, j, n, static_cast<const Elem&>(c[i])); else { Elem e = mk(v); Ops::insertN(c, j, n, e); }
+		}
+		else if (o == "ins1" || o == "insm" || o == "emi")
+		{
+			size_t j = std::stoull(w[1]); bool ref = argIsRef(2); size_t i = ref ? argNum(2) : 0;
+			ll v = ref ? tv(i) : ll(argNum(2));
+			if (doTwin) { if (o == "insm" && ref) twin[i] = -1; twin.insert(twin.begin() + j, v); }
+			if (o == "ins1") { if (ref) Ops::insert1(c, j, static_cast<const Elem&>(c[i])); else { Elem e = mk(v); Ops::insert1(c, j, e); } }
+			else if (o == "insm") { if (ref) Ops::insertR(c, j, std::move(c[i])); else Ops::insertR(c, j, mk(v)); }
+			else { if (ref) Ops::emplaceAt(c, j, static_cast<const Elem&>(c[i])); else withEmplaceArg(v, [&] (auto a) { Ops::emplaceAt(c, j, a); }); }
+		}
+		else if (o == "insr" || o == "insi" || o == "insl")
+		{
+			size_t j = std::stoull(w[1]); std::vector<Elem> vs; std::vector<ll> tvs; values(2, vs, tvs);
+			if (doTwin) twin.insert(twin.begin() + j, tvs.begin(), tvs.end());
+			if (o == "insr") Ops::insertRange(c, j, vs); else if (o == "insi") Ops::insertInput(c, j, vs); else Ops::insertList(c, j, vs);
+		}
+		else if (o == "asgr")
+		{
+			std::vector<Elem> vs; std::vector<ll> tvs; values(1, vs, tvs);
+			if (Ops::assignRange(c, vs)) twin = tvs;
+		}
+		else if (o == "rb") { size_t n = std::stoull(w[1]); if (doTwin) twin.resize(twin.size() - n); Ops::removeBack(c, n); }
+		else if (o == "clr") { twin.clear(); Ops::clear(c, w[1] == "1"); }
+		else if (o == "rm")
+		{
+			size_t j = std::stoull(w[1]), n = std::stoull(w[2]);
+			if (doTwin) twin.erase(twin.begin() + j, twin.begin() + j + n);
+			Ops::remove(c, j, n);
+		}
+		else if (o == "rm1") { size_t j = std::stoull(w[1]); if (doTwin) twin.erase(twin.begin() + j); Ops::remove1(c, j); }
+		else if (o == "rmf")
+		{
+			ll m = std::stoll(w[1]);
+			twin.erase(std::remove_if(twin.begin(), twin.end(), [m] (ll v) { return v % m == 0; }), twin.end());
+			Ops::removeIf(c, [m] (const Elem& e) { return valE(e) % m == 0; });
+		}
+		else if (o == "sc" || o == "asg")
+		{
+			size_t n = std::stoull(w[1]); bool ref = argIsRef(2); size_t i = ref ? argNum(2) : 0;
+			ll v = ref ? tv(i) : ll(argNum(2));
+			if (o == "sc")
+			{
+				if (doTwin) twin.resize(n, v);
+				if (ref) Ops::setCount(c, n, static_cast<const Elem&>(c[i])); else { Elem e = mk(v); Ops::setCount(c, n, e); }
+			}
+			else
+			{
+				bool done = ref ? Ops::assign(c, n, static_cast<const Elem&>(c[i])) : Ops::assign(c, n, mk(v));
+				if (done) twin.assign(n, v);
+			}
+		}
+		else if (o == "sc0") { size_t n = std::stoull(w[1]); if (doTwin) twin.resize(n, 0); Ops::setCount0(c, n); }
+		else if (o == "rs") Ops::reserve(c, std::stoull(w[1]));
+		else if (o == "sh") Ops::shrink(c, w[1] == "-" ? Ops::count(c) : size_t(std::stoull(w[1])));
+		else if (o == "set") { size_t i = std::stoull(w[1]); ll v = std::stoll(w[2]); if (doTwin) twin[i] = v; c[i] = mk(v); }
+		else if (o == "cpc") { C d(static_cast<const C&>(c)); Ops::swap(c, d); }                 // copy construction (+ swap)
+		else if (o == "cpa") { C d; d = static_cast<const C&>(c); Ops::swap(c, d); }            // copy assignment (+ swap)
+		else if (o == "mvc") { C d(std::move(c)); c = std::move(d); }                           // move construction + move assignment
+		else if (o == "swp")
+		{	// swap with another container, check that it received the old contents, swap back
+			ll x = std::stoll(w[1]), y = std::stoll(w[2]);
+			size_t savedAllocs = gAllocs;       // allocations of the OTHER container are not counted
+			C d; { Elem e1 = mk(x); Ops::addBack(d, e1); Elem e2 = mk(y); Ops::addBack(d, e2); }
+			gAllocs = savedAllocs;
+			Ops::swap(c, d);
+			bool okSwap = Ops::count(c) == 2 && valE(static_cast<const C&>(c)[0]) == x && valE(static_cast<const C&>(c)[1]) == y
+				&& Ops::count(d) == twin.size();
+			for (size_t i = 0; okSwap && i < twin.size(); ++i)
+				if (twin[i] >= 0 && valE(static_cast<const C&>(d)[i]) != twin[i]) okSwap = false;
+			if (!okSwap && bad < 0) bad = long(k);
+			Ops::swap(d, c);
+		}
+		else if (bad < 0) bad = long(k);
+	}
+
+	void compareTwin(size_t k)
+	{
+		size_t cntNow = Ops::count(c);
+		if (bad < 0 && cntNow != twin.size()) bad = long(k);
+		for (size_t i = 0; bad < 0 && i < cntNow; ++i)
+			if (twin[i] >= 0 && twin[i] != valE(static_cast<const C&>(c)[i])) bad = long(k);
+	}
+};
+
 template<class C, class Ops, bool showAllocs, bool showCap, class CapFn>
 static void runScript(const std::vector<std::string>& ops, CapFn capFn)
 {
 	std::string out;
 	{
 		gAllocs = 0;
-		C c;
-		std::vector<ll> twin;           // -1 = moved-from (value unspecified)
-		long bad = -1;
+		Runner<C, Ops> r;
 		for (size_t k = 0; k < ops.size(); ++k)
 		{
-			std::vector<std::string> w = split(ops[k], ':');
-			const std::string& o = w[0];
-			auto argIsRef = [&] (size_t pos) { return w[pos] == "r"; };
-			auto argNum = [&] (size_t pos) { return size_t(std::stoull(w[pos + 1])); };
-			// every op: first the twin (on values), then the real container with the (possibly aliased) argument
-			if (o == "ab" || o == "abm")
-			{
-				bool ref = argIsRef(1); size_t i = ref ? argNum(1) : 0; ll v = ref ? twin[i] : ll(argNum(1));
-				if (o == "abm" && ref) twin[i] = -1;
-				twin.push_back(v);
-				if (o == "ab") { if (ref) Ops::addBack(c, static_cast<const Elem&>(c[i])); else { Elem e = mk(v); Ops::addBack(c, e); } }
-				else { if (ref) Ops::addBackR(c, std::move(c[i])); else Ops::addBackR(c, mk(v)); }
-			}
-			else if (o == "ins")
-			{
-				size_t j = std::stoull(w[1]), n = std::stoull(w[2]); bool ref = argIsRef(3); size_t i = ref ? argNum(3) : 0;
-				ll v = ref ? twin[i] : ll(argNum(3));
-				twin.insert(twin.begin() + j, n, v);
-				if (ref) Ops::insertN(c, j, n, static_cast<const Elem&>(c[i])); else { Elem e = mk(v); Ops::insertN(c, j, n, e); }
-			}
-			else if (o == "ins1" || o == "insm")
-			{
-				size_t j = std::stoull(w[1]); bool ref = argIsRef(2); size_t i = ref ? argNum(2) : 0;
-				ll v = ref ? twin[i] : ll(argNum(2));
-				if (o == "insm" && ref) twin[i] = -1;
-				twin.insert(twin.begin() + j, v);
-				if (o == "ins1") { if (ref) Ops::insert1(c, j, static_cast<const Elem&>(c[i])); else { Elem e = mk(v); Ops::insert1(c, j, e); } }
-				else { if (ref) Ops::insertR(c, j, std::move(c[i])); else Ops::insertR(c, j, mk(v)); }
-			}
-			else if (o == "insr" || o == "insi")
-			{
-				size_t j = std::stoull(w[1]); std::vector<Elem> vs; std::vector<ll> tv;
-				if (w.size() > 2 && !w[2].empty()) for (const std::string& x : split(w[2], ',')) { tv.push_back(std::stoll(x)); vs.push_back(mk(tv.back())); }
-				twin.insert(twin.begin() + j, tv.begin(), tv.end());
-				if (o == "insr") Ops::insertRange(c, j, vs); else Ops::insertInput(c, j, vs);
-			}
-			else if (o == "asgr")
-			{
-				std::vector<Elem> vs; std::vector<ll> tv;
-				if (w.size() > 1 && !w[1].empty()) for (const std::string& x : split(w[1], ',')) { tv.push_back(std::stoll(x)); vs.push_back(mk(tv.back())); }
-				if (Ops::assignRange(c, vs)) twin = tv;
-			}
-			else if (o == "rb") { size_t n = std::stoull(w[1]); twin.resize(twin.size() - n); Ops::removeBack(c, n); }
-			else if (o == "clr") { twin.clear(); Ops::clear(c, w[1] == "1"); }
-			else if (o == "rm")
-			{
-				size_t j = std::stoull(w[1]), n = std::stoull(w[2]);
-				twin.erase(twin.begin() + j, twin.begin() + j + n);
-				Ops::remove(c, j, n);
-			}
-			else if (o == "rmf")
-			{
-				ll m = std::stoll(w[1]);
-				twin.erase(std::remove_if(twin.begin(), twin.end(), [m] (ll v) { return v % m == 0; }), twin.end());
-				Ops::removeIf(c, [m] (const Elem& e) { return valE(e) % m == 0; });
-			}
-			else if (o == "sc" || o == "asg")
-			{
-				size_t n = std::stoull(w[1]); bool ref = argIsRef(2); size_t i = ref ? argNum(2) : 0;
-				ll v = ref ? twin[i] : ll(argNum(2));
-				if (o == "sc")
-				{
-					twin.resize(n, v);
-					if (ref) Ops::setCount(c, n, static_cast<const Elem&>(c[i])); else { Elem e = mk(v); Ops::setCount(c, n, e); }
-				}
-				else
-				{
-					bool done = ref ? Ops::assign(c, n, static_cast<const Elem&>(c[i])) : Ops::assign(c, n, mk(v));
-					if (done) twin.assign(n, v);
-				}
-			}
-			else if (o == "rs") Ops::reserve(c, std::stoull(w[1]));
-			else if (o == "sh") Ops::shrink(c, w[1] == "-" ? Ops::count(c) : size_t(std::stoull(w[1])));
-			else if (o == "set") { size_t i = std::stoull(w[1]); ll v = std::stoll(w[2]); twin[i] = v; c[i] = mk(v); }
-			else { out += "?"; }
-			// observe
-			out += '[';
-			size_t cntNow = Ops::count(c);
-			for (size_t i = 0; i < cntNow; ++i)
-			{
-				ll v = valE(static_cast<const C&>(c)[i]);
-				if (i) out += ',';
-				out += (v < 0) ? std::string("M") : std::to_string(v);
-				if (bad < 0 && i < twin.size() && twin[i] >= 0 && twin[i] != v) bad = long(k);
-			}
-			out += ']';
-			if (bad < 0 && cntNow != twin.size()) bad = long(k);
-			out += 'c'; out += showCap ? std::to_string(capFn(c)) : std::string("-");
+			r.apply(ops[k], k, true);
+			out += r.seq();
+			r.compareTwin(k);
+			out += 'c'; out += showCap ? std::to_string(capFn(r.c)) : std::string("-");
 			out += 'a'; out += showAllocs ? std::to_string(gAllocs) : std::string("-");
 			out += ' ';
 		}
-		out += (bad < 0) ? std::string("twin=ok") : ("twin=BAD@" + std::to_string(bad));
+		out += (r.bad < 0) ? std::string("twin=ok") : ("twin=BAD@" + std::to_string(r.bad));
 	}
 	if (gLive != 0) out += " LEAK";
 	std::puts(out.c_str());
+}
+
+// ---- calls that must be REJECTED (MOMO_CHECK / MOMO_ASSERT = assert in this build, or an exception such as
+// std::bad_array_new_length) WITHOUT touching the array.  ops = setup ops, "|", the offending op.  The offending op runs in
+// a forked child; its SIGABRT handler reports the element sequence at the moment of the abort.
+static std::string (*gStateFn)() = nullptr;
+static int gPipeFd = -1;
+static void onAbort(int)
+{
+	std::string st = "abort " + (gStateFn ? gStateFn() : std::string("?")) + "\n";
+	ssize_t r = write(gPipeFd, st.data(), st.size()); (void)r;
+	_exit(3);
+}
+template<class C, class Ops> static Runner<C, Ops>* gRunner = nullptr;
+template<class C, class Ops> static std::string runnerState() { return gRunner<C, Ops>->seq(); }
+
+template<class C, class Ops>
+static void runRejected(const std::vector<std::string>& ops)
+{
+	size_t bar = 0; while (bar < ops.size() && ops[bar] != "|") ++bar;
+	if (bar + 2 != ops.size()) { std::puts("bad-rej-line"); return; }
+	std::fflush(stdout);
+	int fds[2]; if (pipe(fds) != 0) { std::puts("pipe-failed"); return; }
+	pid_t pid = fork();
+	if (pid == 0)
+	{
+		close(fds[0]); gPipeFd = fds[1];
+		int devnull = open("/dev/null", O_WRONLY); if (devnull >= 0) dup2(devnull, 2);
+		Runner<C, Ops>* r = new Runner<C, Ops>();     // never destroyed: the child _exits
+		for (size_t k = 0; k < bar; ++k) r->apply(ops[k], k, true);
+		std::string pre = "pre " + r->seq() + "\n";
+		ssize_t wr = write(gPipeFd, pre.data(), pre.size()); (void)wr;
+		gRunner<C, Ops> = r; gStateFn = &runnerState<C, Ops>;
+		std::signal(SIGABRT, onAbort);
+		std::string how;
+		try { r->apply(ops[bar + 1], bar + 1, false); how = "accepted "; }
+		catch (const std::exception&) { how = "exception "; }
+		std::string st = how + r->seq() + "\n";
+		wr = write(gPipeFd, st.data(), st.size()); (void)wr;
+		_exit(0);
+	}
+	close(fds[1]);
+	std::string got; char buf[4096]; ssize_t n;
+	while ((n = read(fds[0], buf, sizeof buf)) > 0) got.append(buf, size_t(n));
+	close(fds[0]);
+	int status = 0; waitpid(pid, &status, 0);
+	for (char& ch : got) if (ch == '\n') ch = ' ';
+	if (WIFSIGNALED(status)) got += "signal=" + std::to_string(WTERMSIG(status));
+	std::puts(got.c_str());
 }
 
 template<class C> static void runMomoArr(const std::vector<std::string>& ops)
@@ -291,6 +420,43 @@ template<class C> static void runStd(const std::vector<std::string>& ops)
 using namespace momo;
 template<SegmentedArrayItemCountFunc f, size_t lg> using Seg =
 	SegmentedArray<Elem, CountMM, SegmentedArrayItemTraits<Elem, CountMM>, SegmentedArraySettings<f, lg>>;
+typedef Array<Elem, CountMM, ArrayItemTraits<Elem, CountMM>, ArraySettings<0, false>> ArrNoGrowOnReserve;
+
+// ---- the INTENDED classes / trait combinations are really instantiated
+typedef ArrayItemTraits<Elem, CountMM> IT0;
+#if ELEM == 0
+static_assert(IT0::isTriviallyRelocatable && IT0::isNothrowRelocatable && IT0::isNothrowMoveConstructible, "pod traits");
+static_assert(internal::MemManagerProxy<CountMMR>::canReallocate && !internal::MemManagerProxy<CountMMR>::canReallocateInplace, "CountMMR reallocates");
+#elif ELEM == 1
+static_assert(!IT0::isTriviallyRelocatable && IT0::isNothrowRelocatable && IT0::isNothrowMoveConstructible, "ntm traits");
+#elif ELEM == 2
+static_assert(!IT0::isTriviallyRelocatable && !IT0::isNothrowRelocatable && !IT0::isNothrowMoveConstructible, "cpy traits: copy-only, copying may throw");
+#elif ELEM == 3
+static_assert(!IT0::isTriviallyRelocatable && IT0::isNothrowRelocatable && IT0::isNothrowMoveConstructible, "smh traits");
+#else
+static_assert(!IT0::isTriviallyRelocatable && IT0::isNothrowRelocatable && IT0::isNothrowMoveConstructible, "std::string traits");
+#endif
+static_assert(!internal::MemManagerProxy<CountMM>::canReallocate, "CountMM has no Reallocate");
+static_assert(Array<Elem, CountMM>::internalCapacity == 0 && Array<Elem, CountMM>::Settings::growOnReserve
+	&& Array<Elem, CountMM>::Settings::usePtrIterator && Array<Elem, CountMM>::Settings::checkMode == CheckMode::assertion, "Array settings");
+static_assert(!ArrNoGrowOnReserve::Settings::growOnReserve, "growOnReserve = false configuration");
+static_assert(std::is_same<Array<Elem, CountMM>::Iterator, Elem*>::value, "Array uses pointer iterators");
+#if ELEM != 2
+static_assert(ArrayIntCap<4, Elem, CountMM>::internalCapacity == 4 && !ArrayIntCap<4, Elem, CountMM>::Settings::usePtrIterator, "ArrayIntCap<4>: index iterators");
+static_assert(ArrayIntCap<16, Elem, CountMM>::internalCapacity == 16 && ArrayIntCap<1, Elem, CountMM>::internalCapacity == 1, "ArrayIntCap<N>");
+static_assert(std::is_same<stdish::vector_intcap<4, Elem, PoisonAlloc<Elem>>::nested_container_type,
+	ArrayIntCap<4, Elem, MemManagerStd<PoisonAlloc<Elem>>>>::value, "vector_intcap<4> wraps ArrayIntCap<4>");
+#endif
+static_assert(std::is_same<stdish::vector<Elem, PoisonAlloc<Elem>>::nested_container_type, Array<Elem, MemManagerStd<PoisonAlloc<Elem>>>>::value, "stdish::vector wraps Array");
+static_assert(Seg<SegmentedArrayItemCountFunc::cnst, 2>::Settings::itemCountFunc == SegmentedArrayItemCountFunc::cnst
+	&& Seg<SegmentedArrayItemCountFunc::cnst, 2>::Settings::logInitialItemCount == 2, "segc 2");
+static_assert(Seg<SegmentedArrayItemCountFunc::sqrt, 1>::Settings::itemCountFunc == SegmentedArrayItemCountFunc::sqrt
+	&& Seg<SegmentedArrayItemCountFunc::sqrt, 1>::Settings::logInitialItemCount == 1, "segs 1");
+static_assert(!std::is_base_of<std::forward_iterator_tag, std::iterator_traits<InIt>::iterator_category>::value
+	&& !internal::IsForwardIterator17<InIt>::value, "InIt selects the input-iterator overload");
+
+template<class C> static void runMomoRej(const std::vector<std::string>& ops) { runRejected<C, MomoOps<C>>(ops); }
+template<class C> static void runStdRej(const std::vector<std::string>& ops) { runRejected<C, StdOps<C>>(ops); }
 
 int main()
 {
@@ -314,7 +480,14 @@ int main()
 			continue;
 		}
 		if (elem != kElem) { std::puts("wrong-elem"); continue; }
-		if (cont == "arr" && ic == 0) runMomoArr<Array<Elem, CountMM>>(ops);
+		if (cont == "rej-arr" && ic == 0) runMomoRej<Array<Elem, CountMM>>(ops);
+		else if (cont == "rej-segc" && ic == 2) runMomoRej<Seg<SegmentedArrayItemCountFunc::cnst, 2>>(ops);
+		else if (cont == "rej-vec" && ic == 0) runStdRej<stdish::vector<Elem, PoisonAlloc<Elem>>>(ops);
+#if ELEM != 2
+		else if (cont == "rej-arr" && ic == 4) runMomoRej<ArrayIntCap<4, Elem, CountMM>>(ops);
+#endif
+		else if (cont == "arrG" && ic == 0) runMomoArr<ArrNoGrowOnReserve>(ops);
+		else if (cont == "arr" && ic == 0) runMomoArr<Array<Elem, CountMM>>(ops);
 #if ELEM == 0
 		else if (cont == "arrR" && ic == 0) runMomoArr<Array<Elem, CountMMR>>(ops);
 		else if (cont == "arrR" && ic == 4) runMomoArr<ArrayIntCap<4, Elem, CountMMR>>(ops);
